@@ -29,7 +29,7 @@ def main(argv=None):
         if a.replay:
             path = a.replay if os.path.isabs(a.replay) else os.path.join(core.ROOT, a.replay)
             try:
-                doc = json.load(open(path))
+                doc = core.jloads(open(path).read())
             except Exception as e:
                 print("harness error: cannot read replay %s: %s" % (a.replay, e), file=sys.stderr)
                 return 2
